@@ -88,9 +88,9 @@ func c08Profiles(tier string) []Profile {
 			}
 		},
 		Letters: func(w *harness.World) []Letter { return nil }}
-	faulted := Profile{Name: "faulted-revert", Exec: OnlyOracles(c07Exec(1, 1, false), "observe", "model", "durable", "revert"),
+	faulted := Profile{Name: "faulted-revert", Exec: OnlyOracles(c07Exec(2, 1, false), "observe", "model", "durable", "revert"),
 		Budget: map[int]int{1: 0, 2: 0, 3: 1}, ShardLevel: 3,
-		Rule: "FlushRevert when a file call fails: the C07 driver (7 initial stores x every single operation x one failing file call at every index, retried or not; a call that reports success is taken at its word) followed by Set, Flush, the full read battery, a copy of the file re-opened, Reopen and the battery again; contents oracles only: a FlushRevert that returns nil has landed exactly one flush back, in memory and in the file (a read fault on a root record or a failed Truncate that is not reported shows as a wrong state)"}
+		Rule: "FlushRevert when a file call fails: the C07 driver (8 initial stores x every history of length <= 2, e.g. a Flush that fails and is not retried followed by FlushRevert, x one failing file call at every index, retried or not; a call that reports success is taken at its word) followed by Set, Flush, the full read battery, a copy of the file re-opened, Reopen and the battery again; contents oracles only: a FlushRevert after a failed Flush must succeed, and a FlushRevert that returns nil has landed exactly one flush back, in memory and in the file (a read fault on a root record or a failed Truncate that is not reported shows as a wrong state)"}
 	return []Profile{
 		faulted,
 		sizes.Profile("history [Set Flush, Set Flush, Set(c, value) Flush, FlushRevert, FlushRevert] for every value length 0..4299 x {plain value, value ending in the doubled end marker, value starting and ending with it, value ending in a byte-exact copy of the file's first root record}: each revert must terminate (step budget), land exactly one flush back, truncate to that flush's root end, and a copy of the file must re-open to the same state"),
